@@ -1,0 +1,94 @@
+//go:build verif
+
+// Contracts for the deductive verifier in /verif (govc) over the compiler packages. Comment-only; compiled
+// only with -tags verif. Keys are pkg.Type.Method / pkg.Func with pkg = last element of the import path.
+
+package compiler
+
+// ---- termination of recursion (C11) ---------------------------------------------------------------------------
+// decreases tree(p): parameter p gets structurally smaller at every recursive call (SUB: a component held
+// inside it; TDEF: the definition of the alias it names - well-founded because validateTypedefs rejects
+// cyclic aliases). decreases visited(p): bounded by a visited collection extended before each call.
+
+//@ func parser.Frugal.UnderlyingType
+//@   decreases tree(t)
+//@ func parser.Frugal.isValidType
+//@   decreases tree(typ)
+//@ func parser.Frugal.typedefCycle
+//@   decreases tree(t)
+//@ func parser.Type.String
+//@   decreases tree(t)
+//@ func parser.addInclude
+//@   decreases tree(t)
+//@ func parser.getImports
+//@   decreases tree(t)
+//@ func parser.Auditor.checkType
+//@   decreases tree(oldType)
+//@ func parser.parseFrugal
+//@   decreases visited(visitedIncludes)
+
+//@ func compiler.generateFrugalRec
+//@   decreases visited(globals.CompiledFiles)
+
+//@ func html.displayType
+//@   decreases tree(typ)
+//@ func html.formatValue
+//@   decreases tree(value)
+//@ func html.transitiveIncludesRec
+//@   decreases tree(module)
+//@ func json.collectFrugals
+//@   decreases visited(used)
+//@ func json.toRawType
+//@   decreases tree(pt)
+//@ func json.toType
+//@   decreases tree(pt)
+
+//@ func golang.Generator.generateConstantValue
+//@   decreases tree(value)
+//@ func golang.Generator.generateReadFieldRec
+//@   decreases tree(field)
+//@ func golang.Generator.generateWriteFieldRec
+//@   decreases tree(field)
+//@ func golang.Generator.getGoTypeFromThriftTypePtr
+//@   decreases tree(t)
+
+//@ func java.Generator._getJavaType
+//@   decreases tree(t)
+//@ func java.Generator.getJavaTypeFromThriftType
+//@   decreases tree(t)
+//@ func java.Generator.generateConstantValueRec
+//@   decreases tree(value)
+//@ func java.Generator.generateConstantValueWrapper
+//@   decreases tree(value)
+//@ func java.Generator.generateCopyConstructorField
+//@   decreases tree(field)
+//@ func java.Generator.generateReadFieldRec
+//@   decreases tree(field)
+//@ func java.Generator.generateWriteFieldRec
+//@   decreases tree(field)
+
+//@ func dartlang.Generator.generateConstantValue
+//@   decreases tree(value)
+//@ func dartlang.Generator.generateReadFieldRec
+//@   decreases tree(field)
+//@ func dartlang.Generator.generateWriteFieldRec
+//@   decreases tree(field)
+//@ func dartlang.Generator.getDartTypeFromThriftType
+//@   decreases tree(t)
+
+//@ func python.Generator.generateConstantValue
+//@   decreases tree(value)
+//@ func python.Generator.generateReadFieldRec
+//@   decreases tree(field)
+//@ func python.Generator.generateWriteFieldRec
+//@   decreases tree(field)
+//@ func python.Generator.generateSpecArgs
+//@   decreases tree(t)
+//@ func python.Generator.getPythonTypeName
+//@   decreases tree(t)
+
+// Validation is what makes TDEF descent well-founded: every alias of the file is checked for a cyclic
+// definition, and a cyclic one is an error.
+//@ func parser.Frugal.validateTypedefs
+//@   ensures lastcallret("parser.Frugal.typedefCycle", 0) ==> result != nil
+//@   modifies *
